@@ -26,6 +26,9 @@ def _combo_scenarios(quick):
     # a target with an empty environment: a stream that exists and is empty (its directory entry has a type and a position but no bytes)
     scns.append({"id": "combo-emptyenv", "target": dict(dumps.base_target(1, regions=[{"name": "code", "len": 4096, "exec": True}]), env_clear=True), "faults": {"start": 7, "pre_len": 300000},
                  "writer": {"blamed": "main"}})
+    # the destination positioned beyond 4 GiB when the request begins (a dump appended to a huge file): offsets there need 64 bits
+    scns.append({"id": "combo-far", "target": dumps.base_target(2, regions=[{"name": "code", "len": 4096, "exec": True}]), "faults": {"start": (1 << 32) + 8192 + 5, "pre_len": 0},
+                 "writer": {"blamed": "main"}})
     # stream sizes spanning magnitudes: multi-MiB application regions and a thread list section of > 1 MiB
     big = dumps.base_target(2, regions=[{"name": "big0", "len": 3 * 1024 * 1024 + 17, "lead": 3}, {"name": "big1", "len": 1536 * 1024}, {"name": "one", "len": 1},
                                         {"name": "code", "len": 8192, "exec": True}])
@@ -40,7 +43,7 @@ def c10(ck):
     util.mc_design(ck, "DirSection", "MC_DirSection_C10", "destination-call-level model of the stream sequence, crash / I/O error between any two calls; invariant C10_PrefixConsistent", coverage=True)
     base = _combo_scenarios(quick)
     # 1. fault-free dumps, the destination decoded after EVERY call
-    runs = dumps.run_scenarios(ck, [dict(s, prefixes="all") for s in base], "c10_all")
+    runs = dumps.run_scenarios(ck, [dict(s, prefixes="all", timeout_ms=240000) for s in base], "c10_all")
     out = os.path.join(ck.work, "c10_prefix.ndjson")
     evs, ncalls = [], []
     for r in runs:
@@ -371,6 +374,14 @@ def _reuse_scenarios(quick, seed):
     # app memory changed between dumps
     scns.append({"id": "reuse/app-moves", "target": tgt(1), "writer": {"blamed": "main", "app_memory": [{"addr": {"region": "app0"}, "len": 3000}]},
                  "history": [{"op": "dump"}, {"op": "set", "writer": {"app_memory": [{"addr": {"region": "app1"}, "len": 64}]}}, {"op": "dump"}, {"op": "set", "writer": {"app_memory": []}}, {"op": "dump"}]})
+    # a dump that FAILS part-way (an application region that cannot be read; the destination failing at some call), then the
+    # configuration is repaired and the same writer is used again: nothing of the failed attempt may show up
+    scns.append({"id": "reuse/after-bad-app-memory", "target": tgt(2), "writer": {"blamed": "main", "app_memory": [{"addr": {"region": "app0"}, "len": 3000}, {"addr": "0x10", "len": 64}]},
+                 "history": [{"op": "dump", "expect": "err"}, {"op": "set", "writer": {"app_memory": [{"addr": {"region": "app1"}, "len": 64}]}}, {"op": "dump"}, {"op": "dump"}]})
+    for kf in (12, 30, 60):
+        scns.append({"id": f"reuse/after-destination-failure@{kf}", "target": tgt(2), "writer": {"blamed": {"slot": 0}, "crash_context": {"sp": {"thread_sp": 0}, "ip": {"region": "code", "off": 300}},
+                                                                                                  "app_memory": [{"addr": {"region": "app0"}, "len": 3000}]},
+                     "history": [{"op": "dump", "dest_fail_at": kf, "expect": "err"}, {"op": "set", "writer": {"app_memory": [], "crash_context": None}}, {"op": "dump"}]})
     # options that stay configured must be honoured by every dump: the caller's entry address (module order), the caller's mappings
     scns.append({"id": "reuse/direct-entry", "target": tgt(1), "writer": {"blamed": "main", "direct_auxv": {"entry": {"module": "libc.so.6", "off": 0x100}}}, "history": [{"op": "dump"}] * 3})
     scns.append({"id": "reuse/user-mappings", "target": tgt(1), "writer": {"blamed": "main", "user_mappings": [{"start": {"region_map": "code"}, "size": 8192, "name": "/user/lib code.so", "id_hex": "00112233445566778899aabbccddeeff"}]},
@@ -406,8 +417,11 @@ def c19(ck):
             elif step["op"] == "dump":
                 if di < len(r["dumps"]):
                     d = r["dumps"][di]
-                    evs.append(dumps.c19_event(r, d, cur))
-                    sevs.append(dumps.c01_event(dict(r, scn=dict(r["scn"], writer=cur)), d))
+                    ev = dumps.c19_event(r, d, cur)
+                    ev["expectErr"] = step.get("expect") == "err"
+                    evs.append(ev)
+                    if not ev["expectErr"]:
+                        sevs.append(dumps.c01_event(dict(r, scn=dict(r["scn"], writer=cur)), d))
                 else:
                     evs.append(dumps.c19_event(r, {"outcome": r["end"]["worker"] if r["end"] else "?", "dump_no": di + 1}, cur))
                 di += 1
@@ -474,8 +488,67 @@ def _reg_targets(quick, seed):
     return scns
 
 
+def status_part(ck, quick):
+    """Thread info under generated /proc/<tid>/status contents (worker in a private mount namespace)."""
+    util.mc_design(ck, "MC_StatusFile", "MC_StatusFile", "get_ppid_and_tgid transcribed over every status file of <= 4 lines (Tgid / PPid / Name / Uid lines with a pid, zero, text or nothing; a line shorter than the key); "
+                   "invariants LoopIsParse, KernelFilesAccepted; liveness Terminates", workers=8, coverage=True, timeout=900)
+    exp = core.run_tlc("MC_StatusFile", "MC_StatusFile_export", workers=4, timeout=600)
+    cases = exp["printed"].get("REPLAY", [])
+    if not cases:
+        raise core.ToolError("MC_StatusFile exported no cases")
+    import random
+    rnd = random.Random(ck.seed)
+    good = [c for c in cases if c["want"]["ok"]]
+    bad = [c for c in cases if not c["want"]["ok"]]
+    n = 40 if quick else 400
+    chosen = rnd.sample(good, min(n, len(good))) + rnd.sample(bad, min(n, len(bad)))
+
+    def text(lines):
+        return ("".join((f"{ln['key']}:\t{ln['val']}\n" if ln["kind"] == "kv" else "ab\n") for ln in lines)).encode()
+    scns, per = [], 80
+    for b in range(0, len(chosen), per):
+        hist = []
+        for c in chosen[b:b + per]:
+            hist += [{"op": "fake", "path": "/proc/{pid}/status", "content_hex": text(c["lines"]).hex()}, {"op": "dump"}]
+        scns.append({"id": f"status/{b // per}", "target": dumps.base_target(2), "writer": {"blamed": {"slot": 0}}, "history": hist, "no_oracles": True, "timeout_ms": 120000, "cases": chosen[b:b + per]})
+    try:
+        runs = dumps.run_scenarios(ck, scns, "c04_status", timeout=3000)
+    finally:
+        import glob
+        for f in glob.glob("/dev/shm/mdw_fake_*"):
+            try:
+                os.remove(f)
+            except OSError:
+                pass
+    evs, unavailable = [], 0
+    for r in runs:
+        if any(x.get("ev") == "fake_unavailable" for x in r.get("other", [])):
+            unavailable += 1
+            continue
+        main = r["report"]["pid"]
+        for c, d in zip(r["scn"]["cases"], r["dumps"]):
+            ths = d.get("streams", {}).get("threads", {}).get("threads", []) if d.get("outcome") == "ok" else []
+            evs.append({"ev": "status", "origin": f"{r['id']}#{d.get('dump_no')}", "lines": c["lines"], "outcome": d.get("outcome", "none"),
+                        "listedWithContext": any(t["tid"] == main and t.get("ctx_size") == 1232 for t in ths)})
+    ck.cov["status_substitution_unavailable"] = unavailable
+    if not evs:
+        ck.assumptions.append("status-file substitution (unshare + bind mount) was not permitted in this environment: StatusFile is model-checked only")
+        return
+    out = os.path.join(ck.work, "c04_status.ndjson")
+    core.export_lines(evs, out)
+
+    def describe(hist, tag):
+        e = hist[-1]
+        return ({"tag": tag}, f"{tag} ({e['origin']}): status lines {[(l_.get('key'), l_.get('val')) if l_['kind'] == 'kv' else 'short' for l_ in e['lines']]} -> outcome {e['outcome']}, main thread listed with a context: {e['listedWithContext']}")
+    v = util.judge_batch(ck, "Trace_StatusFile", out, "dumps taken while /proc/<pid>/status of the target's main thread shows generated contents (PPid 0, repeated / missing / unparsable id lines, other lines)", "StatusFile", describe, traces=len(evs))
+    if v["counts"]["accepted"] == 0 or v["counts"]["rejected"] == 0:
+        raise core.ToolError(f"vacuous status part: {v['counts']}")
+    ck.cov["status_cases"] = v["counts"]
+
+
 def c04(ck):
     quick = ck.tier == "quick"
+    status_part(ck, quick)
     runs = dumps.run_scenarios(ck, _reg_targets(quick, ck.seed) + dumps.cross_scenarios(quick, ck.seed), "c04_regs")
     evs = [e for r in runs for d in r["dumps"] for e in th_proj.c04_events(r, d)]
     for r in runs:
@@ -525,6 +598,12 @@ def c04(ck):
 SIGNOS = [31, 11, 7, 4, 8, 5, 6, 3] + [s for s in range(1, 65) if s not in (31, 11, 7, 4, 8, 5, 6, 3, 32, 33)]
 
 
+# (signal, code) pairs: the kernel-defined codes of the signals whose siginfo has extra address-like fields first (SIGSYS/SYS_SECCOMP,
+# SIGSEGV/SEGV_*, SIGBUS/BUS_*, SIGILL, SIGFPE, SIGTRAP), then user-sent codes (SI_USER 0, SI_QUEUE -1, SI_TKILL -6, SI_KERNEL 128), then every other signal
+SIGPAIRS = ([(31, 1), (11, 1), (11, 2), (7, 1), (7, 2), (7, 3), (4, 1), (8, 1), (5, 1), (5, 2), (31, 0), (31, -6), (11, 128), (6, -6), (3, 0), (11, 3), (11, 4), (7, 4), (7, 5)]
+            + [(s_, c_) for s_ in SIGNOS for c_ in (0, -1) if s_ not in (31, 11, 7, 4, 8, 5)])
+
+
 def _ctx_scenarios(quick, seed):
     import random
     rnd = random.Random(seed)
@@ -537,7 +616,7 @@ def _ctx_scenarios(quick, seed):
         if k % 3 != 2:
             sp = {"thread_sp": blamed["slot"]} if isinstance(blamed, dict) else {"thread_sp": 0}
             w["crash_context"] = {"sp": sp, "ip": {"region": "code", "off": rnd.randrange(0, 8192)}, "gregs_seed": seed * 1000 + k, "fp_seed": seed * 77 + k,
-                                  "siginfo": {"signo": SIGNOS[(k - k // 3) % len(SIGNOS)], "code": rnd.choice([1, 2, 128, -6]), "addr": hex(rnd.getrandbits(64))}}
+                                  "siginfo": {"signo": SIGPAIRS[(k - k // 3) % len(SIGPAIRS)][0], "code": SIGPAIRS[(k - k // 3) % len(SIGPAIRS)][1], "addr": hex(rnd.getrandbits(64))}}
         if "crash_context" in w and k % 4 == 1 and n > 1:
             w["crash_context"]["tid"] = [0, {"slot": (blamed["slot"] + 1) % n if isinstance(blamed, dict) else 0}][(k // 4) % 2]
         scns.append({"id": f"ctx/{k}", "target": tgt, "writer": w, "want_regs": True})
@@ -584,9 +663,12 @@ def _stack_scenarios(quick, seed):
     # (b) size limit around the estimate threshold, 24..64 threads, SP offsets on both sides of 2048
     for k, (n, lim) in enumerate([(24, 1000), (24, 10**9), (40, 300000), (64, 5000)] if quick else [(n, l) for n in (21, 24, 33, 64) for l in (1000, 200000, 262000, 263000, 330000, 10**9)]):
         threads = [{"mode": "pause", "stack_pages": 1 + (i % 3), "sp_off": [100, 2047, 2048, 3000, 4000, 1024, 2500][i % 7] + 4096 * (i % (1 + i % 3))} for i in range(n - 1)]
-        w = {"blamed": {"slot": n - 3}, "size_limit": lim}
+        # among the threads that get shortened: stack pointers BELOW the stack mapping (in its guard page / a hole), on both sides of the chunk boundary
+        for j, (ab, bl) in enumerate([(24, "guard"), (3000, "guard"), (2048, "hole"), (2040, "guard")]):
+            threads[n - 2 - j if j else n - 2] = {"mode": "pause", "stack_pages": 2, "sp_abs_below": ab, "below": bl}
+        w = {"blamed": {"slot": n - 8}, "size_limit": lim}
         if k % 2 == 0:
-            w["crash_context"] = {"sp": {"thread_sp": n - 3}, "ip": "0x1000"}
+            w["crash_context"] = {"sp": {"thread_sp": n - 8}, "ip": "0x1000"}
         scns.append({"id": f"stack/limit{lim}/n{n}", "target": {"threads": threads}, "writer": w})
     return scns
 
@@ -692,6 +774,11 @@ def _mem_scenarios(quick, seed):
         if k < len(ipoffs) or rnd.random() < 0.7:
             w["crash_context"] = {"sp": {"thread_sp": 0}, "ip": ip}
         scns.append({"id": f"mem/{k}/{name}", "target": tgt, "writer": w})
+    # a dump request that fails on an unreadable application region, then a corrected request on the same writer: its memory list is
+    # about that request only
+    tgt = dumps.base_target(2, regions=[{"name": "app0", "len": 4096, "above": "hole"}, {"name": "code", "len": 4096, "exec": True}])
+    scns.append({"id": "mem/retry-after-failed-request", "target": tgt, "writer": {"blamed": "main", "app_memory": [{"addr": {"region": "app0"}, "len": 4096}, {"addr": "0x10", "len": 8}]},
+                 "history": [{"op": "dump", "expect": "err"}, {"op": "set", "writer": {"app_memory": [{"addr": {"region": "app0", "off": 1}, "len": 4095}]}}, {"op": "dump"}]})
     # the crash IP close to the end of the readable part of a file mapping that the dumper merges with the inaccessible
     # reservation behind it (one mapping, whose tail cannot be read): the window is what could be read, and says so
     for k, off in enumerate([-16, -128, -129, -1]):
@@ -727,11 +814,20 @@ def c07(ck):
     runs = dumps.run_scenarios(ck, scns, "c07")
     evs = []
     for r in runs:
-        for d in r["dumps"]:
+        # the writer options in force for each dump of a history
+        cur, per_dump = dict(r["scn"].get("writer", {})), []
+        for step in r["scn"].get("history", [{"op": "dump"}]):
+            if step["op"] == "set":
+                cur.update(step["writer"])
+            elif step["op"] == "dump":
+                per_dump.append((dict(cur), step.get("expect") == "err"))
+        for (wopts, expect_err), d in zip(per_dump, r["dumps"]):
+            if expect_err:
+                continue
             # a region whose tail is unmapped appears with the bytes that could be read (C07 quantifies over readable regions; C10 and C01
             # need the descriptor to say what was written)
             mp = th_proj.parse_maps(d["oracle"]["maps"]) if d.get("outcome") == "ok" else []
-            app = [(a0, th_proj.readable_len(mp, a0, a["len"]) if mp else a["len"]) for a in r["scn"]["writer"].get("app_memory", []) for a0 in [dumps_resolve(a["addr"], r["report"])]]
+            app = [(a0, th_proj.readable_len(mp, a0, a["len"]) if mp else a["len"]) for a in wopts.get("app_memory", []) for a0 in [dumps_resolve(a["addr"], r["report"])]]
             evs.append(th_proj.c07_event(r, d, app))
         if not r["dumps"]:
             evs.append({"ev": "failed", "origin": r["id"]})
